@@ -172,3 +172,18 @@ prop("C04",
      explanation="`enabled` in the property means: enable bit set when the key is pressed and IEF set at the next sampling point; EI, DI and RETI end without sampling (the request stays pending over them)",
      assumptions=["level interrupts absent (stubbed to None in bus.rs)"],
      )
+
+prop("C14",
+     modules=["Emu2a.Props.C14"],
+     theorems=["Emu2a.C14.board_refines", "Emu2a.C14.step_R", "Emu2a.C14.comparators_reflect_inputs", "Emu2a.C14.status_bits",
+               "Emu2a.C14.clamp_range", "Emu2a.C14.clamp_id", "Emu2a.C14.clamp_nan", "Emu2a.C14.clamp_above",
+               "Emu2a.C14.clamp_below", "Emu2a.C14.dac_voltage", "Emu2a.C14.fan_period_law", "Emu2a.C14.fan_depends_on_do1",
+               "Emu2a.C14.edgeBlock_eq", "Emu2a.C14.uio_visibility", "Emu2a.C14.raise_iff"],
+     harness="c14",
+     exhaustive={"quick": False, "thorough": True},
+     level_text="Lean refinement theorem board_refines: after ANY sequence of port writes 0xF0-0xF3 and external input changes the byte-level board model (board.rs mirrored, f32 as bit patterns with a kernel-evaluable soft-float) is related to a pin-level specification in which the status registers are DERIVED: comparator bits from `input > byte/100` (comparator 2: max of input 2 and temperature), jumper/UIO/input-port levels as last applied, UIO changes ignored exactly for output pins, interrupt flip-flop and source flag raised exactly when the selected source makes its configured transition (one `fires` definition against the six copied code blocks); clamp theorems by case analysis on the definition for all bit patterns (never NaN, within 0..5 V, identity in range, NaN -> 0, above -> 5, below -> 0); dac_voltage (the stored value is the correctly rounded byte/100) and fan_period_law (|period - (255 - byte)| <= 1, 255 at rest, 0 at full speed, monotone) by kernel evaluation over all 256 bytes. Tied to board.rs by exhaustive tables and op-by-op differential histories; the specification is compared with the real board after every operation",
+     technique="Lean 4 refinement proof (simulation relation per operation, induction over histories) + kernel-evaluated soft-float tables + differential histories against the pin-level specification",
+     rule="tables for all 256 bytes (DAC voltage bits, fan rpm, period); clamp on 22 special bit patterns + 100k/2M random patterns through the specification (thorough: ALL 2^32 patterns against the clamping rule on the real board); 400/4000 histories of 20-140 operations (writes to 0xF0-0xF3 incl. interrupt-control and direction bytes, setters with special/random f32 bit patterns, jumpers, UIO pins) with everything the board reports compared after EVERY operation; every byte on every port from a configured state; distinct = distinct op lines",
+     explanation="Board::master_reset leaves comparator bits stale until the next update (outside this property's alphabet; noted under C07)",
+     assumptions=["IEEE-754 binary32 arithmetic of rustc for `/` and `*` (modelled by the soft-float, cross-checked on all 256 table entries every run)"],
+     )
